@@ -22,6 +22,7 @@ returns equal arrays.
 """
 from __future__ import annotations
 
+import contextlib
 import copy
 import gc
 import inspect
@@ -420,8 +421,11 @@ def part_fill(ctx: Ctx, res: Result, n: int):
 
 
 # ============================================================================================ (b) end to end
-OUT_A = {"pressure_base": ["cij", "cij_t", {"keyword": "bm_VRH", "fname": "bulk_custom_tp.txt"}, "G_VRH", "v", "vs", "vp", "bm_V", "G_R"],
-         "volume_base": ["p", "cij", "bm_VRH", "vs", {"keyword": "G_V", "fname": "shear_custom_tv.txt"}]}
+# (one file name is requested in BOTH sections: whichever base is written last owns the file — the order is fixed by the code, not by a hash)
+OUT_A = {"pressure_base": ["cij", "cij_t", {"keyword": "bm_VRH", "fname": "bulk_custom_tp.txt"}, "G_VRH", "v", "vs", "vp", "bm_V", "G_R",
+                           {"keyword": "G_VRH", "fname": "shared_between_bases.txt"}],
+         "volume_base": ["p", "cij", "bm_VRH", "vs", {"keyword": "G_V", "fname": "shear_custom_tv.txt"},
+                         {"keyword": "G_VRH", "fname": "shared_between_bases.txt"}]}
 OUT_B = {"pressure_base": ["cij", "cij_t", "bm_VRH", "G_VRH", "v", "vs", "vp", "bm_V", "G_R"],
          "volume_base": ["p", "cij", "bm_VRH", "vs", "G_V"]}
 GRID = {"NT": 4, "DT": 250, "DT_SAMPLE": 250, "NTV": 10, "DELTA_P": 2.0, "DELTA_P_SAMPLE": 2.0}
@@ -545,7 +549,16 @@ class Sub:
         self.files = created(self.before, snapshot(self.cwd))
 
 
-def run_inproc(ds, root, label):
+@contextlib.contextmanager
+def warnings_only():
+    """numpy's warnings silenced, `logging` left exactly as the process history left it (level set by an earlier `cij run --debug`)"""
+    import warnings
+    with warnings.catch_warnings():
+        warnings.simplefilter("ignore")
+        yield
+
+
+def run_inproc(ds, root, label, keep_logging=False):
     """the real Calculator in THIS process; returns (calculator, {file: bytes})"""
     import cij.core.calculator as cc
     d = os.path.join(root, label, "data")
@@ -553,7 +566,7 @@ def run_inproc(ds, root, label):
     os.makedirs(out)
     path = synth.write_all(d, ds)
     cwd = os.getcwd()
-    with e2e.quiet():
+    with (warnings_only() if keep_logging else e2e.quiet()):
         calc = cc.Calculator(path)
         os.chdir(out)
         try:
@@ -608,6 +621,17 @@ def other_commands(ds, root, system):
         if system:
             r = CliRunner().invoke(cij.cli.fill.main, ["-s", system, i2])
             done.append("fill" + ("" if r.exit_code == 0 else f" (exit {r.exit_code})"))
+        # `cij run --debug DEBUG`: the command sets the level of the "cij" logger and never restores it — part of the process history
+        import cij.cli.main, logging
+        out = os.path.join(d, "run-debug-out"); os.makedirs(out)
+        cwd = os.getcwd(); os.chdir(out)
+        try:
+            r = CliRunner().invoke(cij.cli.main.main, ["--debug", "DEBUG", os.path.join(d, "settings.yaml")])
+        finally:
+            os.chdir(cwd)
+            for h in list(logging.getLogger("cij").handlers):            # the handler's stream belongs to the finished CliRunner
+                logging.getLogger("cij").removeHandler(h)
+        done.append("run --debug DEBUG" + ("" if r.exit_code == 0 else f" (exit {r.exit_code})"))
     return done
 
 
@@ -841,7 +865,7 @@ def eval_e2e(seed: int, variant: int, thorough: bool, nseeds: int, time_left: fl
                 # ---- other commands of the package earlier in the same process (run-static in every mode, fill): "process history"
                 other = other_commands(a, root, system)
                 stats["other_commands_in_history"] = other
-                ca3, fa3 = run_inproc(a, root, "inA-after-commands")
+                ca3, fa3 = run_inproc(a, root, "inA-after-commands", keep_logging=True)
                 check("inA3", refA, fa3, "history:other-commands-then-run:files-differ",
                       f"A computed after {', '.join(other)} ran in the same process differs from A in a fresh process")
                 del ca3
